@@ -99,7 +99,7 @@ def run(tier, scratch, t0, replay=None):
     batches = D.build_batches(scratch, sorted(K.available_interps()), tier, "C07", n_stdlib=3 if quick else 200, n_gen=4 if quick else 160, batch=40,
                               with_corpus=False, gen_snippets=3 if quick else None,
                               focus=["frozenset", "shared_consts", "FLAG_REF", "backward_lines", "line_gaps", "int", "text", "closure"],
-                              must_templates=["t_set_of_bytes", "t_long_loop", "t_shared_frozenset", "t_shared_big_tuple", "t_backward_lines", "t_line_gaps",
+                              must_templates=["t_opcode_zoo", "t_opcode_zoo2", "t_set_of_bytes", "t_long_loop", "t_shared_frozenset", "t_shared_big_tuple", "t_backward_lines", "t_line_gaps",
                                               "t_strings", "t_floats", "t_closure", "t_try_nest"])
 
     def compile_batch(b):
